@@ -24,6 +24,7 @@ struct Recipe {
   uint64_t seed = 1;
   int ncomm = 2;        // user comments
   int bs64 = 0;         // patch short block size to 64 in the ID header (C20 refusal clause only)
+  int mute = 0;         // bit c set: channel c is digital silence (coupled pairs with one silent channel take their own decode paths)
   int cut = 0;          // leading audio packets removed after encoding: a stream cut at a packet boundary, whose positions start at a non-zero granule
   int chunk = 1024;     // analysis_wrote chunk used when producing the link (not semantically relevant)
   std::string key() const;
@@ -47,6 +48,11 @@ struct Link {
   std::string vendor; std::vector<std::string> comments;
   int ref_err = 0;                          // first negative return of the packet-level reference decode
 };
+
+// the seeded test signal of a recipe, sample by sample (deterministic in (recipe, channel, t))
+struct Signal { explicit Signal(const Recipe &r); ~Signal(); float at(int c, int64_t t); private: void *impl; Signal(const Signal &) = delete; };
+ogg_packet pkt_to_op(const Pkt &p);
+Pkt pkt_from_op(const ogg_packet &op);
 
 std::shared_ptr<Link> get_link(const Recipe &r);   // cached per process
 void ensure_half(Link &l);
